@@ -113,7 +113,8 @@ fn replay(cases_path: &str, out_path: &str) {
             }
             "tpl" => runs.push(("Tpl::extract_textures", single(read_container("tpl", &file), w, h))),
             "rgb5a3" => runs.push(("ColorFormat::decode", rgb5a3_decode(&payload))),
-            _ => usage("case api: ctpk|etc|tpl|rgb5a3"),
+            "indexed" => runs.push(("ColorFormat::decode_indexed", indexed_decode(&payload, &json_to_bytes(&c["pal"])))),
+            _ => usage("case api: ctpk|etc|tpl|rgb5a3|indexed"),
         }
         for (via, (ok, px, err)) in runs {
             calls += 1;
@@ -187,6 +188,15 @@ fn random_etc(rng: &mut Rng, w: usize, h: usize, alpha: bool) -> Vec<u8> {
     out
 }
 
+/// a palette index below npal; one in eight is an end of the range (0, 1, npal-2, npal-1)
+fn index_in(rng: &mut Rng, npal: usize) -> u8 {
+    if rng.chance(1, 8) {
+        [0, 1 % npal, (2 * npal - 2) % npal, npal - 1][rng.below(4)] as u8
+    } else {
+        rng.below(npal) as u8
+    }
+}
+
 struct Recorder {
     out: NdWriter,
     n: usize,
@@ -206,7 +216,13 @@ fn record(templates_path: &str, out_path: &str) {
     let mut rng = Rng::new(seed_from_env());
     let n_rand_misc = if tier_is_quick() { 1 } else { 4 };
     let mut rec = Recorder { out: NdWriter::create(out_path), n: 0 };
-    let max_side = templates.iter().filter(|t| t["kind"] == "ctpk").map(|t| u(&t["w"]) * u(&t["h"])).max().unwrap_or(0);
+    // the largest 16-bit template carries the sweep over all 65536 values
+    let max_side = templates
+        .iter()
+        .filter(|t| t["kind"] == "ctpk" && bpp(u(&t["fmt"])) == 2 && !is_etc(u(&t["fmt"])))
+        .map(|t| u(&t["w"]) * u(&t["h"]))
+        .max()
+        .unwrap_or(0);
     for t in &templates {
         let n_rand = u(&t["nrand"]);
         match t["kind"].as_str().unwrap() {
@@ -271,7 +287,8 @@ fn record(templates_path: &str, out_path: &str) {
                 let mut f = json_to_bytes(&t["file"]);
                 for _ in 0..n_rand {
                     let pal = rng.bytes(2 * npal);
-                    let img: Vec<u8> = (0..img_len).map(|_| rng.below(npal) as u8).collect();
+                    // random indices; one in eight is an end of the index range (0, 1, npal-2, npal-1)
+                    let img: Vec<u8> = (0..img_len).map(|_| index_in(&mut rng, npal)).collect();
                     f[pal_at..pal_at + pal.len()].copy_from_slice(&pal);
                     f[img_at..img_at + img_len].copy_from_slice(&img);
                     rec.ev("ci8", "tpl", "random", 100, w, h, &img, &pal, single(read_container("tpl", &f), w, h));
@@ -294,11 +311,14 @@ fn record(templates_path: &str, out_path: &str) {
         rec.ev("rgb5a3", "decode", "random", 101, n, 1, &p, &[], rgb5a3_decode(&p));
     }
     // palette look-up on linear indices
+    let mut sizes: Vec<usize> = vec![1, 2, 255, 256];
     for _ in 0..(4 * n_rand_misc) {
-        let npal = rng.range(1, 256);
+        sizes.push(rng.range(1, 256));
+    }
+    for npal in sizes {
         let n = rng.range(0, 600);
         let rgba = rng.bytes(4 * npal);
-        let idx: Vec<u8> = (0..n).map(|_| rng.below(npal) as u8).collect();
+        let idx: Vec<u8> = (0..n).map(|_| index_in(&mut rng, npal)).collect();
         rec.ev("indexed", "decode_indexed", "random", 100, n, 1, &idx, &rgba, indexed_decode(&idx, &rgba));
     }
     let n = rec.n;
